@@ -47,7 +47,7 @@ TrWqTake ==
 
 TrRegister ==
     /\ IsEv("c.register") /\ InCalls(E.c)
-    /\ \E d \in BOOLEAN : Register(E.c, d)
+    /\ \E d1, d2 \in BOOLEAN : Register(E.c, d1, d2)
     /\ seqof'[E.c] = E.seq
     /\ Adv
 
@@ -85,7 +85,7 @@ TrDispatch ==
     /\ (E.b % 2 = 1) <=> Head(rdq).err
     /\ LET hit == {c \in pending : seqof[c] = E.seq} IN
           IF E.c = 0 THEN hit = {} ELSE hit = {E.c}
-    /\ \E d1, d2 \in BOOLEAN : ReaderDispatch(d1, d2) /\ Cardinality(pending') = E.b \div 2
+    /\ \E d2 \in BOOLEAN : ReaderDispatch(E.s = 1, d2) /\ Cardinality(pending') = E.b \div 2
     /\ Adv
 
 TrDropShutdown ==
@@ -146,8 +146,10 @@ TrSrvRecv == IsEv("v.recv") /\ SrvRecv /\ Adv
 TrSrvDecode ==
     /\ IsEv("v.dispatch")
     /\ sdq # <<>> /\ Head(sdq).seq = E.seq
-    /\ \E d1, d2 \in BOOLEAN : SrvDecode(d1, d2)
+    /\ \E d1 \in BOOLEAN : SrvDecode(d1, E.a >= 2)
     /\ Adv
+
+TrSrvDrop == IsEv("v.drop") /\ SrvDrop /\ Adv
 
 TrExecBegin ==
     /\ IsEv("h.begin") /\ InCalls(E.c)
@@ -203,7 +205,7 @@ TrNext ==
     \/ TrRecv \/ TrDispatch \/ TrDropShutdown \/ TrBadFrame \/ TrFinish \/ TrEofSweep
     \/ TrClose1 \/ TrCloseDup \/ TrSockClose \/ TrClose2 \/ TrCtxRet
     \/ TrCut \/ TrDup \/ TrUnk
-    \/ TrSrvRecv \/ TrSrvDecode \/ TrExecBegin \/ TrExecEnd \/ TrWriteS2C \/ TrSrvEOF
+    \/ TrSrvRecv \/ TrSrvDecode \/ TrSrvDrop \/ TrExecBegin \/ TrExecEnd \/ TrWriteS2C \/ TrSrvEOF
     \/ TrObsClosing \/ TrObsFinal \/ TrObsEnd
 
 TrSpec == TrInit /\ [][TrNext]_tvars
